@@ -169,7 +169,7 @@ def code_response(z, prof, mx, my, nxy, domain, levels):
     return [(2.0 * (conc[k] * e).mean(), 2.0 * (flx[k] * e).mean()) for k in range(len(levels))]
 
 
-def field_error(fv, z, prof, mx, my, nxy, domain, levels):
+def field_error(fv, z, prof, mx, my, nxy, domain, levels, modes=None):
     """the real solver's fields for the surface flux cos(kx x + ky y) against the exact solution, as FIELDS: the source is
     decomposed into its discrete Fourier coefficients (two for an ordinary component; for the unpaired edge column/row of an
     even mode count the two coefficients are NOT complex conjugates of each other, and the solver labels that column with
@@ -183,7 +183,7 @@ def field_error(fv, z, prof, mx, my, nxy, domain, levels):
     y = np.arange(ny) * domain[1] / ny
     X, Y = np.meshgrid(x, y)
     q0 = np.cos(2 * np.pi * (mx * X / domain[0] + my * Y / domain[1]))
-    _, conc, flx = steady_state_transport_solver(q0, z, prof, domain, list(levels), modes=(nx, ny), halo=0.0, precision="double")
+    _, conc, flx = steady_state_transport_solver(q0, z, prof, domain, list(levels), modes=modes or (nx, ny), halo=0.0, precision="double")
     conc = np.asarray(conc).reshape(len(levels), ny, nx)
     flx = np.asarray(flx).reshape(len(levels), ny, nx)
     coef = np.fft.fft2(q0) / (nx * ny)
@@ -313,6 +313,38 @@ def convergence(chk, t, rng):
             chk.violation("component (%d,%d) on a %g x %g m domain (shooting growth exp(%.1f)): the error against the exact solution is %.3e with 96 layers and %.3e with 384: it does not shrink 2.5 times"
                           % (comp[0], comp[1], dom_s[0], dom_s[1], grow, errs[0], errs[1]), {"kind": "convergence", "variant": "large growth", "domain": dom_s, "component": comp, "errors": errs, "growth": grow},
                           klass={"check": "convergence_ratio", "family": "log_neutral", "variant": "large growth"})
+    # ODD grids with a mode request above the grid size (the solver clamps it to the grid: an odd number of retained modes per
+    # axis, no unpaired edge column) - every retained component still converges to the exact response
+    nodd = 0
+    for fam in ("log_neutral", "aniso_linear"):
+        f, z0, ztop = profile_family(fam)
+        for nxy_o, dom_o in (((9, 6), (450.0, 300.0)), ((8, 7), (400.0, 350.0)), ((7, 5), (350.0, 250.0))):
+            for comp in ((1, 0), (1, 1), (2, -1), (-3, 2)):
+                errs = []
+                for nn in (24, 96):
+                    z = grid_of("stretched", z0, ztop, nn)
+                    prof = tuple(np.asarray(a, dtype=float) * np.ones_like(z) for a in f(z))
+                    u, v, Kx, Ky, Kz = prof
+                    kx, ky = 2 * np.pi * comp[0] / dom_o[0], 2 * np.pi * comp[1] / dom_o[1]
+                    T = -(Kx * kx ** 2 + Ky * ky ** 2) - 1j * (u * kx + v * ky)
+                    if nn == 24 and (np.abs(T[:-1]) * np.diff(z) ** 2 / Kz[:-1]).max() > 1.0:
+                        errs = None
+                        break
+                    e, grow = field_error(f, z, prof, comp[0], comp[1], nxy_o, dom_o, [0, nn // 4, nn // 2], modes=(64, 64))
+                    if grow > 18.0:
+                        errs = None
+                        break
+                    errs.append(e)
+                if errs is None:
+                    continue
+                nodd += 1
+                n += 1
+                chk.case(json.dumps(["odd grid", fam, nxy_o, comp]))
+                if errs[0] > 1e-9 and errs[1] > errs[0] / 2.5:
+                    chk.violation("component (%d,%d) on a %d x %d grid with the mode request clamped to the grid, %s profiles: the error against the exact solution is %.3e with 24 layers and %.3e with 96: it does not shrink 2.5 times"
+                                  % (comp[0], comp[1], nxy_o[0], nxy_o[1], fam, errs[0], errs[1]), {"kind": "convergence", "variant": "odd grid, clamped modes", "grid": list(nxy_o), "component": comp, "errors": errs},
+                                  klass={"check": "convergence_ratio", "family": fam, "variant": "odd grid"})
+    chk.extra["odd_grid_cases"] = nodd
     # a WEAK component next to a strong one: the problem is linear, every retained component is solved whatever its amplitude
     from bldfm.solver import steady_state_transport_solver
     nweak = 0
